@@ -145,6 +145,76 @@ pub fn check(tier: &str, rep: &mut Report) {
             rep.violation(Violation { signature: "rc-law-exts".into(), case: json!({"kind": "exts", "value": v}), detail: format!("Exts {:#010b}: rc {:#010b} (want {:#010b}), complement {:#010b} (want {:#010b}), reverse {:#010b} (want {:#010b})", v, e.rc().val, want_rc, e.complement().val, want_c, e.reverse().val, want_rev) });
         }
     }
+    // the extension-set algebra against plain set semantics (all 256 values, all 65 536 pairs for the binary operations)
+    {
+        let bits = |l: &Bases, r: &Bases| encode_exts(l, r);
+        let mut bad: Vec<String> = vec![];
+        for v in 0..=255u8 {
+            let e = Exts::new(v);
+            let (l, r) = decode_exts(v);
+            for (dir, side) in [(Dir::Left, &l), (Dir::Right, &r)] {
+                let want_list: Vec<u8> = (0..4u8).filter(|b| side[*b as usize]).collect();
+                checks += 6;
+                if e.get(dir) != want_list { bad.push(format!("Exts({:#010b}).get({:?}) = {:?}", v, dir, e.get(dir))); }
+                if e.num_ext_dir(dir) as usize != want_list.len() { bad.push(format!("Exts({:#010b}).num_ext_dir({:?})", v, dir)); }
+                if (0..4u8).any(|b| e.has_ext(dir, b) != side[b as usize]) { bad.push(format!("Exts({:#010b}).has_ext({:?}, _)", v, dir)); }
+                let uniq = if want_list.len() == 1 { Some(want_list[0]) } else { None };
+                if e.get_unique_extension(dir) != uniq { bad.push(format!("Exts({:#010b}).get_unique_extension({:?}) = {:?}", v, dir, e.get_unique_extension(dir))); }
+                // single_dir: that side's bases moved into the LEFT nibble
+                if e.single_dir(dir).val != bits(side, &[false; 4]) { bad.push(format!("Exts({:#010b}).single_dir({:?}) = {:#010b}", v, dir, e.single_dir(dir).val)); }
+                for b in 0..4u8 {
+                    let mut s2 = *side;
+                    s2[b as usize] = true;
+                    let want = match dir { Dir::Left => bits(&s2, &r), Dir::Right => bits(&l, &s2) };
+                    if e.set(dir, b).val != want { bad.push(format!("Exts({:#010b}).set({:?}, {})", v, dir, b)); }
+                }
+            }
+            if e.num_exts_l() != e.num_ext_dir(Dir::Left) || e.num_exts_r() != e.num_ext_dir(Dir::Right) { bad.push(format!("Exts({:#010b}).num_exts_l/r", v)); }
+            if format!("{:?}", e) != format!("{}|{}", ascii(&e.get(Dir::Left)), ascii(&e.get(Dir::Right))) { bad.push(format!("Exts({:#010b}) Debug = {:?}", v, e)); }
+            for w in 0..=255u8 {
+                let f = Exts::new(w);
+                let (fl, fr) = decode_exts(w);
+                checks += 3;
+                if e.add(f).val != bits(&or_bases(&l, &fl), &or_bases(&r, &fr)) { bad.push(format!("Exts({:#010b}).add({:#010b})", v, w)); }
+                if Exts::merge(e, f).val != bits(&l, &fr) { bad.push(format!("Exts::merge({:#010b}, {:#010b}) = {:#010b}", v, w, Exts::merge(e, f).val)); }
+                // from_single_dirs takes two single-direction sets (left nibbles)
+                if v < 16 && w < 16 && Exts::from_single_dirs(e, f).val != bits(&l, &fl) { bad.push(format!("Exts::from_single_dirs({:#06b}, {:#06b})", v, w)); }
+            }
+        }
+        for a in 0..4u8 {
+            for b in 0..4u8 {
+                let mut l = [false; 4];
+                let mut r = [false; 4];
+                l[a as usize] = true;
+                r[b as usize] = true;
+                checks += 3;
+                if Exts::mk(a, b).val != bits(&l, &r) || Exts::mk_left(a).val != bits(&l, &[false; 4]) || Exts::mk_right(b).val != bits(&[false; 4], &r) { bad.push(format!("Exts::mk({}, {})", a, b)); }
+            }
+        }
+        if Exts::empty().val != 0 { bad.push("Exts::empty".into()); }
+        // flanking-base constructors over every (start, length) of short sequences
+        for s in all_strings(4).chain(all_strings(1)).chain(all_strings(0)) {
+            let d = DnaString::from_bytes(&s);
+            for st in 0..=s.len() {
+                for ln in 0..=s.len() - st {
+                    let mut l = [false; 4];
+                    let mut r = [false; 4];
+                    if st > 0 { l[s[st - 1] as usize] = true; }
+                    if st + ln < s.len() { r[s[st + ln] as usize] = true; }
+                    checks += 2;
+                    if Exts::from_slice_bounds(&s, st, ln).val != bits(&l, &r) { bad.push(format!("Exts::from_slice_bounds({}, {}, {})", ascii(&s), st, ln)); }
+                    if Exts::from_dna_string(&d, st, ln).val != bits(&l, &r) { bad.push(format!("Exts::from_dna_string({}, {}, {})", ascii(&s), st, ln)); }
+                }
+            }
+        }
+        // direction helpers and base complement
+        let is_l = |d: Dir| matches!(d, Dir::Left);
+        if is_l(Dir::Left.flip()) || !is_l(Dir::Right.flip()) || !is_l(Dir::Left.cond_flip(false)) || is_l(Dir::Left.cond_flip(true)) || is_l(Dir::Right.cond_flip(false)) || !is_l(Dir::Right.cond_flip(true)) || Dir::Left.pick(1, 2) != 1 || Dir::Right.pick(1, 2) != 2 { bad.push("Dir::flip / cond_flip / pick".into()); }
+        if (0..4u8).any(|b| debruijn::complement(b) != 3 - b) { bad.push("complement(base)".into()); }
+        for m in bad.into_iter().take(3) {
+            rep.violation(Violation { signature: "exts-algebra".into(), case: json!({"kind": "exts-algebra"}), detail: m });
+        }
+    }
     rep.states += 256;
     rep.evaluations += 256;
     rep.count("Exts:values", 256);
@@ -185,7 +255,7 @@ pub fn check(tier: &str, rep: &mut Report) {
     rep.transitions = checks;
     rep.sample(json!({"kind": "kmer", "type": "Kmer6", "value": "ACGCGT", "laws": "position law, involution, min_rc, min_rc_flip, is_palindrome"}));
     rep.sample(json!({"kind": "sequence", "value": "ACGTTGA", "laws": "DnaString rc, slice rc nesting x3 at offsets {0,1,2,31,32,33}, k-mer/ext commutation for 10 K types, Lmer capacities 1..6"}));
-    rep.rule = "k-mers: all 20 types, ALL values for K <= 8 (thorough 12), P(K) pattern family otherwise: rc position law, involution (raw equality), min_rc / min_rc_flip (value, flag; palindromes either flag), is_palindrome <=> x == rc(x); all 256 Exts: rc / complement / reverse against set semantics; sequences: ALL strings of length 0..9 (thorough 11) plus structured strings at lengths up to 70 and around 96/128/160/192: DnaString::rc, slice.rc nested 1..3 times at backing offsets {0,1,2,31,32,33}, i-th k-mer of rc == rc of (n-K-i)-th k-mer and the k-mer+exts iterator law for 10 K types, Lmer<[u64;1..6]>::rc raw equality. Non-trivial = value differs from its reverse complement's canonical choice (k-mers: palindromic or flipped by min_rc)".into();
+    rep.rule = "k-mers: all 20 types, ALL values for K <= 8 (thorough 12), P(K) pattern family otherwise: rc position law, involution (raw equality), min_rc / min_rc_flip (value, flag; palindromes either flag), is_palindrome <=> x == rc(x); all 256 Exts: rc / complement / reverse and the whole set algebra (get, has_ext, num_ext_dir, get_unique_extension, single_dir, set, add and merge over all 65 536 pairs, from_single_dirs, mk*, from_slice_bounds / from_dna_string over every (start, length)) against set semantics; sequences: ALL strings of length 0..9 (thorough 11) plus structured strings at lengths up to 70 and around 96/128/160/192: DnaString::rc, slice.rc nested 1..3 times at backing offsets {0,1,2,31,32,33}, i-th k-mer of rc == rc of (n-K-i)-th k-mer and the k-mer+exts iterator law for 10 K types, Lmer<[u64;1..6]>::rc raw equality. Non-trivial = value differs from its reverse complement's canonical choice (k-mers: palindromic or flipped by min_rc)".into();
     rep.assumptions.push("content exhaustive for K <= 8 and sequence length <= 7 (9); structured beyond".into());
     rep.floor("Kmer6:palindromes", 64);
     rep.floor("sequences:all_strings_up_to_bound", 349525);
@@ -198,6 +268,11 @@ pub fn replay(c: &Value) -> Vec<String> {
             with_kmer_named!(c["type"].as_str().unwrap(), K => kmer_laws::<K>(&s).1)
         }
         Some("sequence") => seq_laws(&from_ascii(c["value"].as_str().unwrap())).1,
+        Some("exts-algebra") => {
+            let mut rep = Report::new("C12", "quick", "replay");
+            check("quick", &mut rep);
+            rep.violations.iter().filter(|v| v.signature == "exts-algebra").map(|v| v.detail.clone()).collect()
+        }
         Some("exts") => {
             let v = c["value"].as_u64().unwrap() as u8;
             let e = Exts::new(v);
